@@ -7,6 +7,8 @@ Oracle: a model {graph name -> set of triples} of what a local graph would hold,
 endpoint's dataset must equal the committed model; every read through the store must equal the model state that read is entitled to see."""
 from __future__ import annotations
 
+import re
+
 import warnings
 
 from hypothesis import strategies as st
@@ -258,8 +260,13 @@ def _terms(case):
 
 
 # ---------------------------------------------------------------- update() texts (the "local" single-graph subset the store documents)
+_BS_BEFORE_UCHAR = re.compile(r"(?P<bs>\\\\(?=u[0-9A-Fa-f]{4}|U[0-9A-Fa-f]{8}))|\\.", re.S)
+
+
 def n3(t):
-    return T(t).n3()
+    """the term as SPARQL text. A backslash of the text that is followed by uXXXX is written as codepoint escapes: SPARQL (19.2) replaces
+    \\uXXXX in the whole request before parsing, also after the doubled backslash of the n3() form"""
+    return _BS_BEFORE_UCHAR.sub(lambda m: "\\u005C\\u005C" if m.group("bs") else m.group(0), T(t).n3())
 
 
 def update_text(u):
@@ -310,6 +317,9 @@ def cases(draw, tier):
         lambda xs: ["l", "".join(xs), None, None])
     lit = st.one_of(gt.literals(xml_safe=xml, unknown=True), gt.falsy_literals(), gt.plain_literals(xml_safe=xml), tricky)
     obj = draw(st.lists(st.one_of(lit, lit, gt.iris()), min_size=2, max_size=5, unique_by=repr))
+    if draw(st.booleans()):
+        # a plain literal that says the IRI of a subject which is itself used as an object: two terms with one text in an answer
+        obj.append(["l", subj[0][1], None, None])
     triple = st.tuples(st.sampled_from(subj), st.sampled_from(pred), st.sampled_from(obj + subj[:1])).map(list)
 
     def pattern():
